@@ -512,7 +512,7 @@ def check_construction(ctx, num=6):
     cs = calls_named(f, "WorkloadGenerator")
     ex = calls_named(f, "Executor")
     if cs and ex:
-        ctx.ob(num, "K3", "the generator is built before executor and scheduler exist", g.node_of(cs[0]).id != g.node_of(ex[0]).id and cs[0].lineno < ex[0].lineno, f, cs[0],
+        ctx.ob(num, "K3", "the generator is built before executor and scheduler exist", g.node_of(cs[0]).id != g.node_of(ex[0]).id and before(f, cs[0], ex[0]), f, cs[0],
                construct="construction order", detail=f"generator at L{cs[0].lineno}, executor at L{ex[0].lineno}")
 
 
